@@ -262,7 +262,12 @@ const NAMES: [&str; 25] = [
     "Shift #2", "a: b", "Þ Fortition", "Ümlaut II", "Éclipsis", "1st shift", "*special", "a  b", "Voice (early)", "Grimms Law", "Verners Law", "Voice", "Raise", "Glottal Deletion", "Cluster Simplification", "Hap(lo)logy", "Low Vowel Reduction", "Stress Shift",
     "Umlaut", "final-devoicing", "Palatalisation 2", "Lenition", "a-mutation", "Syncope", "Nasal Assimilation",
 ];
-const DESCS: [&str; 8] = [
+const DESCS: [&str; 12] = [
+    // description text may itself begin with the characters that structure a rule file
+    "#1 applies before #2",
+    "## Notes",
+    "@see Verner",
+    "#",
     "Chain shift of the three series of plosives.",
     "Voiceless plosives become fricatives",
     "applies before sonorants; see notes",
